@@ -308,6 +308,20 @@ fn skip_target_boundaries(n: u64) -> Result<Vec<MaxCut>, StorageError> {
     Ok(targets)
 }
 
+/// Verification shim (C11): exposes the private, pure skip-list boundary function.
+#[cfg(aranya_core_verif)]
+pub mod verif_api_c11 {
+    use alloc::vec::Vec;
+
+    use crate::StorageError;
+
+    pub const MIN_SKIP_GAP: u64 = super::MIN_SKIP_GAP;
+
+    pub fn skip_target_boundaries(n: u64) -> Result<Vec<u64>, StorageError> {
+        super::skip_target_boundaries(n).map(|v| v.into_iter().map(|m| m.get()).collect())
+    }
+}
+
 impl<W: Write> LinearStorage<W> {
     fn create(mut writer: W, init: LinearPerspective<W::ReadOnly>) -> Result<Self, StorageError> {
         assert!(matches!(init.prior, Prior::None));
@@ -1238,6 +1252,40 @@ fn find_prefixes<'m, 'p: 'm>(
     map.range::<[Bytes], _>((Bound::Included(prefix), Bound::Unbounded))
         .take_while(|(k, _)| k.starts_with(prefix))
         .map(|(k, v)| (k, v.as_deref()))
+}
+
+/// Verification shim (only with `--cfg aranya_core_verif`): a read-only view of the layers of a
+/// fact-index chain, so that an external harness can compare `depth`, `prior` and tombstones
+/// with a model. Nothing here is compiled in a normal build.
+#[cfg(aranya_core_verif)]
+pub mod verif_api_c12 {
+    use super::*;
+
+    /// One entry of a layer; a `None` value is a deletion tombstone.
+    pub type Entry = (String, Keys, Option<Bytes>);
+
+    /// `(depth, entries)` for each layer of `index`, newest first, following `prior` to its end.
+    pub fn fact_index_layers<R: Read>(
+        index: &LinearFactIndex<R>,
+    ) -> Result<Vec<(u64, Vec<Entry>)>, StorageError> {
+        fn layer(repr: &FactIndexRepr) -> (u64, Vec<Entry>) {
+            let mut entries = Vec::new();
+            for (name, kv) in &repr.facts {
+                for (k, v) in kv {
+                    entries.push((name.clone(), k.clone(), v.clone()));
+                }
+            }
+            (repr.depth, entries)
+        }
+        let mut out = vec![layer(&index.repr)];
+        let mut prior = index.repr.prior;
+        while let Some(offset) = prior {
+            let repr: FactIndexRepr = index.reader.fetch(offset)?;
+            out.push(layer(&repr));
+            prior = repr.prior;
+        }
+        Ok(out)
+    }
 }
 
 #[cfg(test)]
